@@ -443,7 +443,7 @@ def _emit_name_cluster(
     emit_cluster(f'label="{label}"')
 
     for name, array in names.items():
-        name_id = id_gen(dot_escape(name))
+        name_id = id_gen("name")
         emit_cluster(f'{name_id} [label="{dot_escape(name)}"]')
         array_id = array_to_id[array]
         # Edges must be outside the cluster.
@@ -570,11 +570,7 @@ def _gather_partition_node_information(
         # Again, important to preserve function order. Here we're relying
         # on dicts to preserve order.
         for f in seen_functions:
-            func_name = _get_function_name(f)
-            if func_name is not None:
-                fid = id_gen(dot_escape(func_name))
-            else:
-                fid = id_gen("func")
+            fid = id_gen("func")
 
             part_id_to_func_to_id.setdefault(part.pid, {})[f] = fid
 
@@ -645,8 +641,7 @@ def get_dot_graph_from_partition(partition: DistributedGraphPartition) -> str:
     placeholder_to_id: dict[ArrayOrNames, str] = {}
     part_id_to_array_to_id: dict[PartId, dict[ArrayOrNames, str]] = {}
 
-    part_id_to_id = {pid: dot_escape(str(pid)) for pid in partition.parts}
-    assert len(set(part_id_to_id.values())) == len(partition.parts)
+    part_id_to_id = {pid: f"part{i}" for i, pid in enumerate(partition.parts)}
 
     # {{{ generate names for all nodes in the root/None function
 
@@ -689,7 +684,7 @@ def get_dot_graph_from_partition(partition: DistributedGraphPartition) -> str:
 
         if not is_trivial_partition:
             emit_part("style=dashed")
-            emit_part(f'label="{part.pid}"')
+            emit_part(f'label="{dot_escape_leave_space(str(part.pid))}"')
 
         # {{{ emit functions
 
@@ -698,7 +693,7 @@ def get_dot_graph_from_partition(partition: DistributedGraphPartition) -> str:
 
         for func, fid in part_id_to_func_to_id[part.pid].items():
             func_subgraph_path = (*part_subgraph_path, f"cluster_{fid}")
-            label = _get_function_name(func) or fid
+            label = dot_escape_leave_space(_get_function_name(func) or fid)
 
             emitter(func_subgraph_path, f'label="{label}"')
             emitter(func_subgraph_path, f'{fid} [label="{label}",shape="ellipse"]')
